@@ -112,7 +112,7 @@ func (d *DExpr) Go() string {
 
 func CoqString(s string) string {
 	for i := 0; i < len(s); i++ {
-		if s[i] < 32 || s[i] > 126 {
+		if (s[i] < 32 && s[i] != '\n' && s[i] != '\t') || s[i] > 126 {
 			panic(fmt.Sprintf("CoqString: non-printable byte in %q", s))
 		}
 	}
